@@ -19,7 +19,7 @@ from ..report import Ctx
 from ..selftest import Mutant
 
 PROP = "C17"
-TECHNIQUE = "static analysis: use-after-loop and def-use analysis of Sweep.product + must-read path query + negation-normal-form comparison of the case splits of __len__ and generate + arm-order and shape rules + guard-fact rule for dropped derivers + class-level method alias vs overriding subclasses + variable-arity itemgetter rule + late-binding closure rule + str-or-tuple iteration under isinstance guard (annotation typer + CFG guard facts) + groupby-needs-sorted + empty-items-first dominance + loop-carried fold rule + names/values alignment of zipped product rows"
+TECHNIQUE = "static analysis: use-after-loop and def-use analysis of Sweep.product + must-read path query + negation-normal-form comparison of the case splits of __len__ and generate + arm-order and shape rules + guard-fact rule for dropped derivers + class-level method alias vs overriding subclasses + variable-arity itemgetter rule + late-binding closure rule + str-or-tuple iteration under isinstance guard (annotation typer + CFG guard facts) + groupby-needs-sorted + empty-items-first dominance + loop-carried fold rule + names/values alignment of zipped product rows + projection hands on only its own items + count_sweep covers every dependency + accumulator objects"
 MOD = "pipefunc.sweep"
 EXPLANATION = (
     "Static analysis of pipefunc/sweep.py: scope-aware use-after-loop detection and def-use of the merged attributes in "
